@@ -1,10 +1,10 @@
 #!/bin/bash
 # tools/coverage.sh [ID ...]   (default: all 20)
 # Which statements of package sarama do the QUICK checks execute at all? A statement no check ever runs cannot be
-# noticed when it is changed. Builds every checker with coverage instrumentation of github.com/Shopify/sarama (through
-# the same overlay), runs the quick tier, merges the counters of parent and worker processes and prints per-function
-# coverage of the files the properties are anchored in. Diagnostic only: nothing here is registered in MANIFEST.json.
-# The instrumented binaries live in a scratch directory outside /verif and are removed at the end.
+# noticed when it is changed. Builds every checker with coverage instrumentation of github.com/Shopify/sarama, runs the
+# quick tier, merges the counters of parent and worker processes and prints per-function coverage
+# (.build/coverage-func.txt). Diagnostic only: nothing here is registered in MANIFEST.json.
+# Everything instrumented lives in a scratch directory outside /verif and is removed at the end (KEEP=1 keeps it).
 set -u
 cd "$(dirname "$0")/.."
 ROOT=$(pwd)
@@ -12,7 +12,7 @@ export GOFLAGS=-mod=mod GOPROXY=off GOSUMDB=off GOTOOLCHAIN=local
 GO=go1.26
 ids=${*:-C01 C02 C03 C04 C05 C06 C07 C08 C09 C10 C11 C12 C13 C14 C15 C16 C17 C18 C19 C20}
 scratch=$(mktemp -d /tmp/verifcov.XXXXXX)
-trap 'rm -rf "$scratch"' EXIT
+trap '[ -n "${KEEP:-}" ] || rm -rf "$scratch"' EXIT
 mkdir -p "$scratch/bin" "$scratch/cov" "$scratch/out"
 # the checks read known findings etc. from their root and write evidence there: give them a copy
 rsync -a --exclude .build --exclude .git --exclude seeded --exclude out "$ROOT/" "$scratch/out/"
@@ -30,24 +30,20 @@ for id in $ids; do
   fi
   # remove what the previous check's bridge added, then lay this check's overlay over the copy
   (cd "$scratch/repo" && ls | grep '^verif_c[0-9][0-9]' | xargs -r rm -f; ls mocks 2>/dev/null | grep '^verif_c[0-9][0-9]' | sed 's#^#mocks/#' | xargs -r rm -f)
-  python3 - "$ov" "$scratch/repo" <<'PY'
-import json,sys,shutil,os
-d=json.load(open(sys.argv[1]))['Replace']
-for dst,src in d.items():
-    assert dst.startswith('/repo/'), dst
-    t=os.path.join(sys.argv[2],dst[len('/repo/'):])
-    os.makedirs(os.path.dirname(t),exist_ok=True)
-    shutil.copyfile(src,t)
-PY
-  (cd "$scratch/engine" && $GO test -c -cover -covermode=set -coverpkg=github.com/Shopify/sarama,github.com/Shopify/sarama/mocks -tags verif -vet=off -o "$scratch/bin/$n.test.real" ./checks/$n) || { echo "build failed for $id"; continue; }
-  # worker processes are killed, never asked to exit: every process of a -cover build dumps its counters every two
-  # seconds into $VERIF_COVERDIR/<pid>/ (engine/ev/cover.go)
-  mv "$scratch/bin/$n.test.real" "$scratch/bin/$n.test"
+  python3 tools/materialise_overlay.py "$ov" "$scratch/repo" || exit 3
+  (cd "$scratch/engine" && $GO test -c -cover -covermode=set -coverpkg=github.com/Shopify/sarama,github.com/Shopify/sarama/mocks -tags verif -vet=off -o "$scratch/bin/$n.test.real" ./checks/$n) 2>&1 | grep -v '^warning: no packages being tested depend'
+  [ -x "$scratch/bin/$n.test.real" ] || { echo "build failed for $id"; continue; }
+  # children are started as os.Args[0] with their own flags: a wrapper under the binary's name gives every process its
+  # own coverage directory; with VERIF_COVERDIR set the explorer lets its workers leave on end of input instead of
+  # killing them (a killed process writes no counters)
+  printf '#!/bin/bash\nd="%s/cov/$$"; mkdir -p "$d"; exec -a "$0" "$0.real" "$@" -test.gocoverdir="$d"\n' "$scratch" > "$scratch/bin/$n.test"
+  chmod +x "$scratch/bin/$n.test"
   VERIF_COVERDIR="$scratch/cov" VERIF_ROOT="$scratch/out" VERIF_TIER=quick "$scratch/bin/$n.test" -test.run '^TestCheck$' -test.timeout 0 > "$scratch/out/$n.log" 2>&1
   echo "$id rc=$? $(grep -a '^RESULT' "$scratch/out/$n.log" | cut -c1-80)"
 done
-# hundreds of per-process directories: merge them in chunks first
-ls -d "$scratch"/cov/* | grep -v "\.tmp$" > "$scratch/dirs.txt"
+# hundreds of per-process directories: keep those that hold counters, merge them in chunks first
+for d in "$scratch"/cov/*; do ls "$d" 2>/dev/null | grep -q covcounters && echo "$d"; done > "$scratch/dirs.txt"
+echo "$(wc -l < "$scratch/dirs.txt") processes wrote coverage counters"
 mkdir -p "$scratch/merged"
 split -l 100 "$scratch/dirs.txt" "$scratch/chunk."
 i=0
@@ -56,7 +52,7 @@ for c in "$scratch"/chunk.*; do
   $GO tool covdata merge -i="$(paste -sd, "$c")" -o "$scratch/merged/$i" 2>>"$scratch/covdata.err" || { head "$scratch/covdata.err"; exit 3; }
 done
 dirs=$(ls -d "$scratch"/merged/* | paste -sd,)
-$GO tool covdata textfmt -i="$dirs" -o "$scratch/profile.txt" 2>>"$scratch/covdata.err" || { cat "$scratch/covdata.err" | head; exit 3; }
+$GO tool covdata textfmt -i="$dirs" -o "$scratch/profile.txt" 2>>"$scratch/covdata.err" || { head "$scratch/covdata.err"; exit 3; }
 mkdir -p .build
 cp "$scratch/profile.txt" .build/coverage-profile.txt
 (cd "$scratch/engine" && $GO tool cover -func="$scratch/profile.txt") > .build/coverage-func.txt 2>"$scratch/cover.err" || head "$scratch/cover.err"
